@@ -3,6 +3,10 @@
 // This file is NOT part of /repo: the injector appends `#[path = ...] mod verif_root;` to a scratch copy of lib.rs.
 #![allow(dead_code, unused_imports, non_snake_case, clippy::all)]
 
+#[cfg(verif_native)]
+#[path = "support.rs"]
+pub mod support;
+
 #[cfg(kani)]
 mod k {
     use crate::utils::{fround2, fround3, normalize};
@@ -114,5 +118,144 @@ mod k {
         let d = (r as f64 - v as f64) / 360.0;
         let k = d.round();
         assert!((d - k).abs() <= 1.0e-6, "C11.normalize.congruent");
+    }
+
+    // ---- C06 / C08: rounding helpers -----------------------------------------------------------
+    // The contracts themselves (requires / ensures) are attached to the real functions by the injector,
+    // see contracts/anchors.json; these harnesses make Kani prove them for every f32.
+    #[kani::proof_for_contract(crate::utils::fround2)]
+    fn c06_fround2_contract() {
+        let v: f32 = kani::any();
+        fround2(v);
+    }
+
+    #[kani::proof_for_contract(crate::utils::fround3)]
+    fn c06_fround3_contract() {
+        let v: f32 = kani::any();
+        fround3(v);
+    }
+
+    // rounding is monotone (needed for "adding resistance never increases U")
+    #[kani::proof]
+    fn c06_fround2_monotone() {
+        let a = any_f32_in(-1.0e5, 1.0e5);
+        let b = any_f32_in(-1.0e5, 1.0e5);
+        kani::assume(a <= b);
+        kani::cover!(true, "precondition satisfiable");
+        assert!(fround2(a) <= fround2(b), "C06.fround2.monotone");
+    }
+
+    // ---- C13: box algebra ---------------------------------------------------------------------
+    use crate::energy::{Bounded, Intersectable, Ray, AABB, BVH};
+    use crate::{point, vector};
+
+    fn any_finite() -> f32 {
+        let v: f32 = kani::any();
+        kani::assume(v.is_finite());
+        v
+    }
+
+    fn any_box() -> AABB {
+        let (x0, y0, z0) = (any_finite(), any_finite(), any_finite());
+        let (x1, y1, z1) = (any_finite(), any_finite(), any_finite());
+        kani::assume(x0 <= x1 && y0 <= y1 && z0 <= z1);
+        AABB::new(point![x0, y0, z0], point![x1, y1, z1])
+    }
+
+    fn contains(outer: &AABB, inner: &AABB) -> bool {
+        outer.min.x <= inner.min.x
+            && outer.min.y <= inner.min.y
+            && outer.min.z <= inner.min.z
+            && outer.max.x >= inner.max.x
+            && outer.max.y >= inner.max.y
+            && outer.max.z >= inner.max.z
+    }
+
+    #[kani::proof]
+    fn c13_aabb_join() {
+        let a = any_box();
+        let b = any_box();
+        kani::cover!(true, "precondition satisfiable");
+        let j = a.join(b);
+        assert!(contains(&j, &a) && contains(&j, &b), "C13.aabb.join.contains");
+        let k = b.join(a);
+        assert!(j == k, "C13.aabb.join.commutative");
+        // tight: every face of the join is a face of one of the operands
+        assert!(j.min.x == a.min.x || j.min.x == b.min.x, "C13.aabb.join.tight");
+        assert!(j.max.z == a.max.z || j.max.z == b.max.z, "C13.aabb.join.tight");
+        // the empty box is the identity
+        let e = AABB::default();
+        assert!(e.join(a) == a && a.join(e) == a, "C13.aabb.join.identity");
+    }
+
+    fn any_coord() -> f32 {
+        // coordinates of buildings: |c| <= 1e4 m
+        any_f32_in(-1.0e4, 1.0e4)
+    }
+
+    // a ray that hits a box also hits every box that contains it (soundness of parent-box pruning)
+    #[kani::proof]
+    fn c13_aabb_mono() {
+        let a = AABB::new(point![any_coord(), any_coord(), any_coord()], point![any_coord(), any_coord(), any_coord()]);
+        let b = AABB::new(point![any_coord(), any_coord(), any_coord()], point![any_coord(), any_coord(), any_coord()]);
+        kani::assume(a.min.x <= a.max.x && a.min.y <= a.max.y && a.min.z <= a.max.z);
+        kani::assume(b.min.x <= b.max.x && b.min.y <= b.max.y && b.min.z <= b.max.z);
+        let d = vector![any_f32_in(-1.0, 1.0), any_f32_in(-1.0, 1.0), any_f32_in(-1.0, 1.0)];
+        kani::assume(d.x != 0.0 || d.y != 0.0 || d.z != 0.0);
+        let ray = Ray { origin: point![any_coord(), any_coord(), any_coord()], dir: d };
+        kani::cover!(true, "precondition satisfiable");
+        if a.intersects(&ray).is_some() {
+            assert!(a.join(b).intersects(&ray).is_some(), "C13.aabb.mono");
+        }
+    }
+
+    // ---- C13 / C14: building the acceleration structure on none / one obstacle -------------------
+    #[derive(Clone, Copy)]
+    struct Obst {
+        aabb: AABB,
+        hit: bool,
+    }
+    impl Bounded for Obst {
+        fn aabb(&self) -> AABB {
+            self.aabb
+        }
+    }
+    impl Intersectable for Obst {
+        fn intersects(&self, ray: &Ray) -> Option<f32> {
+            let t = self.aabb.intersects(ray)?;
+            if self.hit {
+                Some(t)
+            } else {
+                None
+            }
+        }
+    }
+
+    fn any_ray() -> Ray {
+        let d = vector![any_f32_in(-1.0, 1.0), any_f32_in(-1.0, 1.0), any_f32_in(-1.0, 1.0)];
+        kani::assume(d.x != 0.0 || d.y != 0.0 || d.z != 0.0);
+        Ray { origin: point![any_coord(), any_coord(), any_coord()], dir: d }
+    }
+
+    #[kani::proof]
+    #[kani::unwind(4)]
+    fn c13_build_empty() {
+        let max: usize = kani::any();
+        kani::assume(max == 1 || max == 2 || max == 30);
+        let bvh: BVH<Obst> = BVH::build(vec![], max);
+        let ray = any_ray();
+        assert!(bvh.intersects(&ray).is_none(), "C13.build.empty");
+    }
+
+    #[kani::proof]
+    #[kani::unwind(4)]
+    fn c13_build_single() {
+        let max: usize = kani::any();
+        kani::assume(max == 1 || max == 2 || max == 30);
+        let o = Obst { aabb: any_box(), hit: kani::any() };
+        let ray = any_ray();
+        let direct = o.intersects(&ray).is_some();
+        let bvh = BVH::build(vec![o], max);
+        assert!(bvh.intersects(&ray).is_some() == direct, "C13.build.equiv");
     }
 }
